@@ -507,7 +507,10 @@ class Server(utils.EventEmitter):
                 logger.warning(color('!!! GATT Indicate timeout', 'red'))
                 raise TimeoutError(f'GATT timeout for {indication.name}') from error
             finally:
-                self.pending_confirmations[bearer] = None
+                # Don't bring back the state of a bearer that has been
+                # disconnected while we were waiting
+                if bearer in self.pending_confirmations:
+                    self.pending_confirmations[bearer] = None
 
     async def _notify_or_indicate_subscribers(
         self,
